@@ -595,7 +595,8 @@ pub fn plan(prop: &str, tier: Tier) -> Plan {
                 let mut p = probes::match_product(&cfg, &menu, false);
                 p.extend(probes::fee_creates(&cfg, &menu));
                 v.push(scen("B11/P0/F2/R0/mid-history-migrations", cfg, menu, p));
-                v.extend(upgrade_family(&|c, m| probes::match_product(c, m, false), false).into_iter().skip(1));
+                // (the larger carried-over book with the full match product costs 20 s: thorough only)
+                v.extend(upgrade_family(&|c, m| probes::match_product(c, m, false), false).into_iter().skip(1).filter(|s| th || !s.name.contains("0.18.2")));
             }
             if th {
                 mk("B21/multi-denom", multi(Cfg::new(0, 2, ("0.25", "0.25"), "R0")), menu_multi(2, 1), &mut v);
